@@ -19,6 +19,7 @@ from sa.model import dotted, own_calls, own_nodes, callee_attr
 from . import common, parity
 
 MT = "toasty.multi_tan"
+MW = "toasty.multi_wcs"
 P = "toasty.pyramid"
 
 EXPLANATION = (
@@ -42,7 +43,7 @@ MANIFEST = {
 def run(run):
     run.explanation = EXPLANATION
     run.undecided_clauses += ["pixel equality with the pasted mosaic; independence of input order for overlapping inputs"]
-    for r, n in (("C09.R1", 1), ("C09.R2", 4), ("C09.R3", 2), ("C09.R4", 3), ("C09.R5", 4), ("C09.R6", 2), ("C09.R7", 4)):
+    for r, n in (("C09.R1", 1), ("C09.R2", 4), ("C09.R3", 2), ("C09.R4", 3), ("C09.R5", 4), ("C09.R6", 2), ("C09.R7", 4), ("C09.R8", 2)):
         run.floor(r, n)
     sigs = _signatures(run)
     # the locked read-modify-write itself (C10.R1) is a premise of "undefined pixels never overwrite defined ones
@@ -71,6 +72,7 @@ def run(run):
     common.delegate(run, "C09.R7", "C20", c20._r4, only_rules={"C20.R4"}, note="premise: the tiled collection is the list of inputs the user gave")
     _r4_cleanup(run)
     _r5_pixelization(run)
+    _r8_pairing(run)
     parity.check(run, "C09.R6", skip_classes=("ToastSampler", "TileMerger", "StudyTiling"))
     # flipping an input (image or description) to the tile parity must be the exact reflection decided by C16
     from . import C16 as c16
@@ -526,3 +528,127 @@ def _after_loop_value(r, name):
         return ("sym", name)
     k = min(r.after_loop)
     return r.after_loop[k].get(name, ("sym", name))
+
+
+# ---------------------------------------------------------------------------------------------------------------------
+# R8: images and their descriptors are paired by position
+
+
+_REORDER = {"sort", "reverse", "pop", "remove", "insert", "clear"}
+
+
+def _r8_pairing(run):
+    """The tilers pair `collection.images()` with a list of per-image descriptors *by position* (zip).  The descriptor list
+    must therefore be, and stay, in the collection's order: it is built with one entry per element of
+    `collection.descriptions()` (a comprehension without condition, or an unconditional append in a loop over it), and
+    nobody re-orders, filters or shortens it afterwards."""
+    project = run.project
+    n_sites = 0
+    for mod in (MT, MW):
+        for cls in sorted({f.cls.name for f in project.functions_in(mod) if f.cls is not None}):
+            methods = [f for f in project.functions_in(mod) if f.cls is not None and f.cls.name == cls and f.module.kind == "py"]
+            # the paired list: whatever attribute of self is zipped with <x>.images()
+            paired = {}
+            for f in methods:
+                for c in own_calls(f.node):
+                    if isinstance(c.func, ast.Name) and c.func.id == "zip" and len(c.args) == 2:
+                        imgs = [a for a in c.args if isinstance(a, ast.Call) and isinstance(a.func, ast.Attribute) and a.func.attr == "images"]
+                        attrs = [a for a in c.args if isinstance(a, ast.Attribute) and isinstance(a.value, ast.Name) and a.value.id == "self"]
+                        if len(imgs) == 1 and len(attrs) == 1:
+                            paired.setdefault(attrs[0].attr, []).append((f, c))
+            for attr, sites in paired.items():
+                n_sites += len(sites)
+                bad = []
+                unknown = []
+                builds = 0
+                for f in methods:
+                    run.note_func(f)
+                    aliases = {None}
+                    for st in own_nodes(f.node):
+                        if isinstance(st, ast.Assign) and len(st.targets) == 1 and isinstance(st.targets[0], ast.Name) and _is_self_attr(st.value, attr):
+                            aliases.add(st.targets[0].id)
+
+                    def is_list(x):
+                        return _is_self_attr(x, attr) or (isinstance(x, ast.Name) and x.id in aliases)
+                    parents = {}
+                    for p_ in ast.walk(f.node):
+                        for ch in ast.iter_child_nodes(p_):
+                            parents[ch] = p_
+                    for st in own_nodes(f.node):
+                        if isinstance(st, (ast.Assign, ast.AnnAssign)):
+                            tgts = st.targets if isinstance(st, ast.Assign) else [st.target]
+                            for tg in tgts:
+                                if _is_self_attr(tg, attr):
+                                    v = st.value
+                                    if isinstance(v, ast.List) and not v.elts or (isinstance(v, ast.Call) and isinstance(v.func, ast.Name) and v.func.id == "list" and not v.args):
+                                        continue
+                                    if isinstance(v, ast.ListComp) and len(v.generators) == 1 and not v.generators[0].ifs and _over_descriptions(v.generators[0].iter):
+                                        builds += 1
+                                        continue
+                                    if isinstance(v, ast.Call) and isinstance(v.func, ast.Name) and v.func.id == "list" and len(v.args) == 1 and (
+                                            _over_descriptions(v.args[0]) or (isinstance(v.args[0], ast.Call) and isinstance(v.args[0].func, ast.Name)
+                                                                              and v.args[0].func.id == "map" and len(v.args[0].args) == 2 and _over_descriptions(v.args[0].args[1]))):
+                                        builds += 1
+                                        continue
+                                    names = {x.func.id for x in ast.walk(v) if isinstance(x, ast.Call) and isinstance(x.func, ast.Name)}
+                                    if names & {"sorted", "reversed", "set", "filter"} or (isinstance(v, ast.ListComp) and any(g.ifs for g in v.generators)):
+                                        bad.append((f, st, "is rebuilt re-ordered or filtered (%s)" % ast.unparse(v)[:60]))
+                                    else:
+                                        unknown.append((f, st, "assigned %s" % ast.unparse(v)[:60]))
+                                elif isinstance(tg, ast.Subscript) and is_list(tg.value) and isinstance(tg.slice, ast.Slice):
+                                    bad.append((f, st, "has a slice of it replaced"))
+                        elif isinstance(st, ast.Delete):
+                            for tg in st.targets:
+                                if isinstance(tg, ast.Subscript) and is_list(tg.value):
+                                    bad.append((f, st, "has entries deleted"))
+                        elif isinstance(st, ast.Call) and isinstance(st.func, ast.Attribute) and is_list(st.func.value):
+                            m = st.func.attr
+                            if m in _REORDER:
+                                bad.append((f, st, "is changed in place by .%s(...)" % m))
+                            elif m in ("append", "extend"):
+                                # one unconditional append per element of collection.descriptions()
+                                loop = None
+                                cond = False
+                                x = st
+                                while x in parents and x is not f.node:
+                                    x = parents[x]
+                                    if isinstance(x, (ast.If, ast.Try, ast.While)) and loop is None:
+                                        cond = True
+                                    if isinstance(x, ast.For) and loop is None:
+                                        loop = x
+                                if m == "append" and loop is not None and _over_descriptions(loop.iter) and not cond:
+                                    skips = [y for y in ast.walk(loop) if isinstance(y, (ast.Continue, ast.Break))]
+                                    if skips:
+                                        bad.append((f, st, "is filled by an append that `continue` / `break` can skip for some inputs"))
+                                    else:
+                                        builds += 1
+                                elif m == "append" and loop is not None and _over_descriptions(loop.iter):
+                                    bad.append((f, st, "is filled by a conditional append (some inputs get no entry)"))
+                                else:
+                                    unknown.append((f, st, ".%s outside a loop over collection.descriptions()" % m))
+                site_f, site_c = sites[0]
+                for f, st, why in bad:
+                    run.violated("C09.R8", f, st, "%s.%s is paired by position with collection.images() (zip in %s), but in %s it %s: images are pasted with "
+                                 "another input's placement" % (cls, attr, site_f.short, f.short, why), kind="pairing-reordered", construct="%s.%s" % (cls, attr))
+                for f, st, why in unknown:
+                    run.undecided("C09.R8", f, st, "%s.%s is paired by position with collection.images(); cannot tell whether it stays in collection order (%s)"
+                                  % (cls, attr, why), kind="pairing-shape", construct="%s.%s" % (cls, attr))
+                if not bad and not unknown:
+                    if builds >= 1:
+                        run.holds("C09.R8", site_f, site_c, "%s.%s has one entry per element of collection.descriptions(), in order, and is never re-ordered; "
+                                  "%d zip site(s) pair it with collection.images()" % (cls, attr, len(sites)), construct="%s.%s" % (cls, attr))
+                    else:
+                        run.undecided("C09.R8", site_f, site_c, "no construction of %s.%s from collection.descriptions() found" % (cls, attr), kind="pairing-build",
+                                      construct="%s.%s" % (cls, attr))
+    return n_sites
+
+
+def _is_self_attr(x, attr):
+    return isinstance(x, ast.Attribute) and x.attr == attr and isinstance(x.value, ast.Name) and x.value.id == "self"
+
+
+def _over_descriptions(it):
+    """`<something>.descriptions()`, possibly wrapped in enumerate / list / tuple."""
+    while isinstance(it, ast.Call) and isinstance(it.func, ast.Name) and it.func.id in ("enumerate", "list", "tuple", "iter") and it.args:
+        it = it.args[0]
+    return isinstance(it, ast.Call) and isinstance(it.func, ast.Attribute) and it.func.attr == "descriptions"
